@@ -100,7 +100,7 @@ P = D.DesignProperty(
     rule=("case = history of 1-3 generated single-crossing designs run with SMGen in one forked child, plus the timer threshold; the last "
           "design's verdict counts; non-trivial = SMGen returned at least one sequence that the reference judged for a design with a derived "
           "factor, a weight or a constraint; refusals, crashes (other exceptions) and time-outs are counted as classes; distinct = distinct case JSON"),
-    cfg_quick=CFG, n_quick=25, n_thorough=1500, case_limit=(8, 40), strategy=histories,
+    cfg_quick=CFG, n_quick=25, n_thorough=200, case_limit=(8, 40), strategy=histories,
     limits={"max_T": {"quick": 9, "thorough": 12}},
     assumptions=["a plain Exception raised from SMGen's _cexit helper is its documented refusal", "other exceptions are outside this property (C08 excludes SMGen) and reported as a class",
                  "interleavings are limited to when the module's timer fires"])
